@@ -375,6 +375,7 @@ def c13(tapes, params):
     heal_at = [None]
     nfaulty = [0]
     est_total = [200]
+    est_bounds = []
 
     def plan(idx, c2s, s2c, peer):
         EnipWorld._conn_plan(w, idx, c2s, s2c, peer)
@@ -382,8 +383,11 @@ def c13(tapes, params):
             return
         nfaulty[0] += 1
         est = max(est_total[0], 30)
+        # mostly anywhere inside the reply stream; also exactly *between* two replies (everything sent so
+        # far has been answered when the connection dies), inside the first header, or beyond the end
+        bnd = est_bounds[sch.draw(len(est_bounds), 'kb')] if est_bounds else 28
         k = cut if cut is not None else sch.weighted([(6, 28 + sch.draw(est - 28, 'k1')), (1, 28 + sch.draw(24, 'k2')),
-                                                       (1, sch.draw(28, 'k0')), (1, est + sch.draw(40, 'k3'))], 'cutk')
+                                                       (1, sch.draw(28, 'k0')), (1, est + sch.draw(40, 'k3')), (3, bnd)], 'cutk')
         stats['cut'] = k
 
         def both(p):
@@ -408,8 +412,10 @@ def c13(tapes, params):
     def estimate(ops):
         # size of the fault-free reply stream: Register reply + one SendRRData frame per read
         tot = 28
+        del est_bounds[:]
         for op in ops:
             exp = w.model.apply(op)
+            est_bounds.append(tot)
             tot += 40 + len(expected_reply_bytes(op, exp))
         est_total[0] = tot
 
